@@ -61,6 +61,27 @@ def assemble(template_path):
                              "dropped": ["everything of the enclosing function except this initializer expression"], "changed": []})
             i += 1
             continue
+        ex = re.match(r"^(\s*)//@exprat\s+(\S+)\s*::\s*(.*?)\s*::\s*`(.*)`\s*$", line)
+        if ex:
+            # the braced expression that starts at the unique occurrence of an anchor token sequence ending in `{`
+            # (e.g. a struct literal `Origin::New {`), verbatim up to the matching `}`
+            indent, rel, sel, anchor = ex.group(1), ex.group(2), [x.strip() for x in ex.group(3).split("::")], ex.group(4)
+            path = os.path.join(REPO, rel)
+            if not os.path.exists(path):
+                raise extract.AnchorLost(f"file missing: {rel}")
+            src = cache.setdefault(path, open(path).read())
+            it = extract.find_item(src, sel)
+            attrs, sig, body = extract.fn_parts(it)
+            expr, first = braced_expr_at(body, anchor)
+            body_first_line = src.count("\n", 0, it.body_start) + 1
+            for k, bl in enumerate(expr.split("\n")):
+                out.append(bl if k else indent + bl)
+                linemap.append((len(out), ("repo-body", rel, body_first_line + first + k, sel[-1])))
+            manifest.append({"file": rel, "item": " :: ".join(sel) + " :: expression `" + anchor + " .. }`", "first_line": body_first_line + first,
+                             "last_line": body_first_line + first + expr.count("\n"), "sha256": hashlib.sha256(expr.encode()).hexdigest(),
+                             "dropped": ["everything of the enclosing function except this expression"], "changed": []})
+            i += 1
+            continue
         m = re.match(r"^(\s*)//@item(?:\[([a-z_,]+)\])?\s+(\S+)\s*::\s*(.*)$", line)
         if not m:
             linemap.append((len(out) + 1, ("template", i + 1)))
@@ -213,6 +234,26 @@ def let_initializer(body, var):
             a = toks[start_tok][2]
             return body[a:p], body.count("\n", 0, a)
     raise extract.AnchorLost(f"initializer of `let {var}` has no terminating `;`")
+
+
+def braced_expr_at(body, anchor):
+    pat = [t for k, t, p in extract.tokenize(anchor) if k not in ("ws", "comment")]
+    if "{" not in pat:
+        raise extract.AnchorLost("exprat anchor must contain the opening `{`")
+    toks = [(k, t, p) for k, t, p in extract.tokenize(body) if k not in ("ws", "comment")]
+    hits = [i for i in range(len(toks) - len(pat) + 1) if all(toks[i + j][1] == pat[j] for j in range(len(pat)))]
+    if len(hits) != 1:
+        raise extract.AnchorLost(f"anchor `{anchor}` occurs {len(hits)} times (expected once)")
+    a = toks[hits[0]][2]
+    depth = 0
+    for k, t, p in toks[hits[0] + pat.index("{"):]:
+        if k == "punct" and t == "{":
+            depth += 1
+        elif k == "punct" and t == "}":
+            depth -= 1
+            if depth == 0:
+                return body[a:p + 1], body.count("\n", 0, a)
+    raise extract.AnchorLost(f"expression at `{anchor}` is not closed")
 
 
 def replace_tokens(body, old, new):
